@@ -60,8 +60,14 @@ def run(P, tier="quick"):
                 key = "R79|%s|%s|ascending:%s" % (f.file, f.name, name)
                 negated = sum(1 for q in t.ancestors() if q.k == "UnaryOperator" and q.op == "!" and
                               (kids[0].id == q.id or kids[0].is_ancestor_of(q))) % 2 == 1
+                # an isnan/isfinite test of an element of the vector, also through a local the element was loaded into
+                elem_locals = set()
+                for v in f.vardecls():
+                    if v.kids and base_of(v.kids[0]) is not None and base_of(v.kids[0])[0] == a[0]:
+                        elem_locals.add(v.get("decl"))
                 tested = any(c.k == "CallExpr" and c.callee in NANTESTS and
-                             any(base_of(x) is not None and base_of(x)[0] == a[0] for arg in c.args() for x in arg.walk())
+                             any((base_of(x) is not None and base_of(x)[0] == a[0]) or
+                                 (x.k == "DeclRefExpr" and x.refdecl in elem_locals) for arg in c.args() for x in arg.walk())
                              for c in f.walk())
                 if negated or tested:
                     R.ok(key, PROPS)
